@@ -120,6 +120,40 @@ fn gen_history(rng: &mut Prng, prop: &str, thorough: bool) -> History {
     let space = *rng.pick(&[6u64, 12, 24, 48, 96, 300]);
     let big_ok = rng.chance(1, 4);
     let mut ops = vec![];
+    // one history in six starts with a staged layout: two files in level 2 and two in level 1 with a
+    // key gap between them, then a manual compaction of that range during which a memtable holding
+    // keys inside the gap (or across it) is flushed from inside the compaction loop
+    if rng.chance(1, 6) {
+        cfg.memtable = *rng.pick(&[512usize, 1024]);
+        cfg.file = *rng.pick(&[4096u64, 8192]);
+        let key = |i: u64| format!("gap{:03}", i).into_bytes();
+        let a = rng.range(0, 5);
+        let b = a + rng.range(1, 3);
+        let c = b + rng.range(1, 3);
+        let m = c + rng.range(3, 9);
+        let n = m + rng.range(1, 3);
+        let p = n + rng.range(1, 3);
+        let force = Op::Compact(Some(b"zzzz".to_vec()), Some(b"zzzzz".to_vec()));
+        let small = |rng: &mut Prng| rng.bytes(6);
+        for (x, y) in [(a, b), (n, p), (a, c), (m, p)] {
+            ops.push(Op::Put(key(x), small(rng)));
+            ops.push(Op::Put(key(y), small(rng)));
+            ops.push(force.clone());
+        }
+        // the writes made while the compaction is parked: inside the gap, or spilling over its ends
+        let (lo, hi) = match rng.below(4) {
+            0 => (c, m),
+            1 => (b, n),
+            _ => (c + 1, m - 1),
+        };
+        let mut ws = vec![];
+        for j in 0..rng.range(3, 6) {
+            let k = lo + (j * (hi - lo)) / 5;
+            ws.push((key(k.min(hi)), vec![b'g'; rng.range(200, 420) as usize]));
+        }
+        ops.push(Op::CompactBusy(Some(key(a)), Some(key(p)), rng.range(1, 4) as u32, ws));
+        ops.push(Op::Scan);
+    }
     if rng.chance(1, 3) {
         // small level limits: size-triggered compactions of levels >= 1 (compaction pointers)
         ops.push(Op::LevelLimit(*rng.pick(&[512u64, 2048, 8192])));
@@ -279,6 +313,7 @@ fn add_stats(rep: &mut Report, s: &Stats) {
     rep.add("lsm.entries-dropped-by-compactions", s.entries_dropped);
     rep.add("lsm.potential-lowered-by-compactions", s.potential_drop);
     rep.add("lsm.closes-during-a-table-compaction", s.closes_during_table_compaction);
+    rep.add("lsm.writes-staged-while-a-table-compaction-is-parked", s.flushes_staged_inside_a_compaction);
     let bump = |rep: &mut Report, k: &str, v: u64| {
         let cur = rep.dist.get(k).copied().unwrap_or(0);
         if v > cur {
